@@ -75,7 +75,14 @@ def _(v):
         return z3.IntVal(1)
     eng.contracts["reb_simulation_save_to_stream"] = Contract("sts", save_to_stream)
     eng.contracts["reb_binary_diff"] = Contract("bd", binary_diff)
-    eng.havoc_calls |= {"reb_simulation_warning", "reb_simulation_error"}
+    # warnings / errors are recorded: a call that saves nothing must tell the user so
+    def report(e, st, args, n):
+        m = args[1]
+        st.trace = st.trace + [("report", str(getattr(m, "tag", m))[:120])]
+        return None
+    eng.contracts["reb_simulation_warning"] = Contract("warning", report)
+    eng.contracts["reb_simulation_error"] = Contract("error", report)
+
     def recovery_inv(L):
         # the recovery walk only ever records positions behind a completely read trailer
         fsz = L.st.mem.get(thefile["id"]).size
@@ -88,8 +95,12 @@ def _(v):
     v.call("reb_simulation_save_to_file", rp, fname)
     writes = [t for t in v.st.trace if t[0] == "fwrite"]
     if not writes:
-        # refused to append (recovery failed): nothing may have been written at all
+        # refused to append (recovery failed): nothing may have been written at all -- and every call that returns without
+        # appending a snapshot must have reported that no snapshot was saved (property C06: one snapshot per call)
+        reports = [t for t in v.st.trace if t[0] == "report"]
         v.ground("refusal_writes_nothing", True, "")
+        v.ground("every_call_appends_a_snapshot_or_reports_that_none_was_saved",
+                 any("No snapshot has been saved" in t[1] for t in reports), "reports on this path: %s" % [t[1] for t in reports])
         return
     v.ground("four_writes", len(writes) == 4, str([(str(w[2])[:40], str(w[3])) for w in writes]))
     if len(writes) != 4:
